@@ -150,13 +150,14 @@ pub fn mount_vectors(specs: &J, out: &mut dyn Write, tier: &str, seed: u64) -> J
             }
         }
         for &(blk, off, w, name) in &benign_sites {
-            for _ in 0..3 {
+            for _ in 0..(if name == "serial" { 24 } else { 3 }) {
                 let d = img.dev.snapshot();
                 {
                     let mut st = d.0.borrow_mut();
                     let mut b = st.get(blk);
                     for i in 0..w {
-                        b[off + i] = 0x20 + (rng.below(0x5E) as u8);
+                        // texts are printable, the serial number is any 32 bits
+                        b[off + i] = if name == "serial" { rng.next() as u8 } else { 0x20 + (rng.below(0x5E) as u8) };
                     }
                     st.put(blk, &b);
                 }
